@@ -83,6 +83,13 @@ def mem_jobs(tier, seed):
             step = 4
             for lo in range(0, rng + 7, step):
                 out.append(('mem', base, (w1, w2), w3, rng, (lo, min(lo + step - 1, rng + 6))))
+        # three stores, the last one (wider) at the first store's address: cells lying inside a store whose own start address
+        # already holds a narrower cell; second offset and load offset symbolic
+        if base == 'sym' or tier == 'thorough':
+            for ws in [(8, 8, 32), (16, 16, 32), (32, 8, 32), (8, 16, 32), (8, 32, 16), (16, 8, 32)]:
+                for wl3 in ((8, 32) if tier == 'quick' else (8, 16, 32)):
+                    for lo in range(0, 12, 4):
+                        out.append(('mem', base, ws, wl3, 5, (lo, lo + 3), 'first'))
         if tier == 'thorough' and base == 'sym':
             for ws in [(32, 8, 32), (8, 32, 8), (16, 16, 32)]:
                 for lo in range(0, 13, 2):
@@ -91,9 +98,10 @@ def mem_jobs(tier, seed):
 
 
 def run_mem(job, res):
-    _, basek, ws, wl, rng, sub = job
+    _, basek, ws, wl, rng, sub = job[:6]
+    tie = job[6] if len(job) > 6 else None     # 'first': the last store goes to the first store's address (offset 8)
     # partition the first free offset to spread the work: one engine per value of o_2 (or o_load)
-    name = 'stores %s then load%d, base %s, offsets in [0,%d)%s' % ('/'.join('st%d' % w for w in ws), wl, basek, rng + 7, '' if sub is None else ', second offset in [%d,%d]' % sub)
+    name = 'stores %s then load%d, base %s, offsets in [0,%d)%s%s' % ('/'.join('st%d' % w for w in ws), wl, basek, rng + 7, '' if sub is None else ', second offset in [%d,%d]' % sub, ', last store at the first address' if tie else '')
     eng = Engine(width=72, timeout_ms=30000, max_paths=20000, max_seconds=900, path_seconds=60)
 
     def fn(eng):
@@ -107,7 +115,7 @@ def run_mem(job, res):
         vals = []
         # first offset fixed in the middle of the window (translation invariance), the others symbolic
         for i, w in enumerate(ws):
-            if i == 0:
+            if i == 0 or (tie == 'first' and i == len(ws) - 1):
                 o = 8
             elif i == 1 and sub is not None:
                 o = SInt.var('o%d' % i, sub[0], sub[1])
@@ -205,7 +213,7 @@ def run_mem(job, res):
                 continue
             seen.add(key)
             res['candidates'].append({'key': key, 'desc': '%s: %s with %s' % (name, r[2], v),
-                                      'data': {'kind': 'mem', 'base': basek, 'ws': ws, 'wl': wl, 'vals': {str(k): x for k, x in v.items()}, 'what': r[1]}})
+                                      'data': {'kind': 'mem', 'base': basek, 'ws': ws, 'wl': wl, 'tie': tie, 'vals': {str(k): x for k, x in v.items()}, 'what': r[1]}})
         elif r[0] == 'TIMEOUT':
             res['inconclusive'].append('%s: path timeout' % name)
         else:
@@ -271,6 +279,7 @@ V = D['vals']; ws = D['ws']; wl = D['wl']
 base = X.ExprId('ebx', 32) if D['base'] == 'sym' else X.ExprInt(M.uint32(V.get('base', 0)))
 machine = EA.eval_abs({})
 offs = [8] + [V.get('o%%d' %% i, 0) for i in range(1, len(ws))]
+if D.get('tie') == 'first': offs[-1] = 8
 c = ir2smt.Ctx(strict=False); bt = ir2smt.tr(base, c); mem = c.mem
 for i, (o, w) in enumerate(zip(offs, ws)):
     v = X.ExprId('v%%d' %% i, w)
@@ -348,7 +357,7 @@ def main(argv=None):
     cov['rule'] = 'a program = one store/load history (width tuple, base kind) with symbolic offsets, or one instruction sequence; non-trivial = at least one path proved'
     cov['functions_encoded'] = ['expression_eval_abstract:eval_abs.eval_instr/get_instr_mod/get_mem_overlapping/substract_mems/is_mem_in_target/eval_ExprMem/rest_slice, mpool',
                                 'expression_helper:expr_simp', 'tools.emul_helper:emul_lines/emul_expr/emul_full_expr (programs)']
-    cov['bounds'] = ('histories: 1 or 2 stores (3 in thorough for three width mixes) + 1 load, widths 8/16/32, first store at base+8, other offsets symbolic in [0,%d), '
+    cov['bounds'] = ('histories: 1 or 2 stores (3 in thorough for three width mixes; in both tiers 3 stores for six width mixes with the last, wider store at the address of the first store) + 1 load, widths 8/16/32, first store at base+8, other offsets symbolic in [0,%d), '
                      'base constant (symbolic value) or symbolic register' % (19 if a.tier == 'quick' else 23))
     if cov['proved'] == 0:
         herr.append('vacuous: nothing proved')
